@@ -704,7 +704,9 @@ package log
 //@   ensures[C01:attached-sync] dyn(f.logger, *SyncLogger) ==> as(f.logger, *SyncLogger).AppenderRefs.AppenderRefs == f.appenders
 //@   ensures[C01:attached-async] dyn(f.logger, *AsyncLogger) ==> as(f.logger, *AsyncLogger).AppenderRefs.AppenderRefs == f.appenders
 //@   ensures[C05:inner-logger-started] result == nil ==> f.logger != nil && startedL[f.logger] == old(startedL)[f.logger] + 1
+//@   ensures[C06,C16:the-inner-logger-is-what-the-factory-made-for-this-logger] calls(fnLogger) == old(calls(fnLogger)) + 1 && arg0(fnLogger) == f && f.logger == ret(fnLogger, calls(fnLogger))
 //@   loop 1 invariant[C05:range] 0 <= $k && $k <= len(f.appenders)
+//@   loop 1 invariant[C06,C16:factory-called] calls(fnLogger) == old(calls(fnLogger)) + 1 && arg0(fnLogger) == f && f.logger == ret(fnLogger, calls(fnLogger))
 
 //@ func (*RollingFileLogger).Append
 //@   requires f != nil && f.logger != nil && e != nil && !pooled[e]
@@ -1548,6 +1550,7 @@ package log
 //@   ensures[C15:dangling-reference-is-an-error] hasRefs(x) && (exists k int :: 0 <= k && k < len(refsOf(x).AppenderRefs) && !has(cAppenders, old(refsOf(x).AppenderRefs[k]).Ref)) ==> result1 != nil
 //@   ensures[C01,C15:references-resolved] hasRefs(x) && result1 == nil ==> wfRefs(refsOf(x)) && (forall k int :: 0 <= k && k < len(refsOf(x).AppenderRefs) ==> refsOf(x).AppenderRefs[k].Appender == cAppenders[refsOf(x).AppenderRefs[k].Ref])
 //@   ensures[C01:ranges-chained] hasRefs(x) && result1 == nil ==> sortedRefs(refsOf(x))
+//@   ensures[C01,C12:no-reference-dropped] hasRefs(x) && result1 == nil ==> len(refsOf(x).AppenderRefs) == old(len(refsOf(x).AppenderRefs))
 //@   loop 1 invariant[C15:scan] 0 <= $k && $k <= len(ref.AppenderRefs) && hasRefs(x) && ref == refsOf(x) && len(ref.AppenderRefs) == old(len(refsOf(x).AppenderRefs))
 //@   loop 1 invariant[C15:refs-kept] refsFresh(ref) && (forall j int :: 0 <= j && j < len(ref.AppenderRefs) ==> ref.AppenderRefs[j] == old(refsOf(x).AppenderRefs[j]))
 //@   loop 1 invariant[C15:resolved-so-far] forall j int :: 0 <= j && j < $k ==> has(cAppenders, ref.AppenderRefs[j].Ref) && ref.AppenderRefs[j].Appender == cAppenders[ref.AppenderRefs[j].Ref]
@@ -1724,6 +1727,7 @@ package log
 //@   ghost cfgLoggers = cLoggers
 //@   ensures[C16:second-refresh-is-rejected] old(global.init) ==> result != nil
 //@   ensures[C16:second-refresh-disturbs-nothing] old(global.init) ==> global.init && global.loggers == old(global.loggers) && global.appenders == old(global.appenders) && (forall t string :: has(tagRegistry, t) ==> tagRegistry[t].logger == old(tagRegistry[t].logger)) && (forall n string :: has(loggerMap, n) ==> loggerMap[n].logger == old(loggerMap[n].logger))
+//@   ensures[C11,C15,C16:a-rejected-second-refresh-applies-no-property] old(global.init) ==> (forall k string :: has(propertyRegistry, k) ==> calls(propertyRegistry[k]) == old(calls(propertyRegistry[k])))
 //@   ensures[C16:live-after-success] result == nil ==> global.init && !old(global.init)
 //@   ensures[C16:registries-kept] regWF() && regTagged()
 //@   ensures[C16:every-tag-is-served] result == nil ==> (forall t string :: has(tagRegistry, t) ==> tagRegistry[t].logger != nil)
@@ -1868,3 +1872,122 @@ package log
 //@   ensures[C15:a-float-that-does-not-parse-is-an-error] cfgd && (reflect.Value.Kind(fv) == 13 || reflect.Value.Kind(fv) == 14) ==> (result == nil) == parse_float_ok(cval, 64) && (result == nil ==> rvInt[fv] == parse_float_val(cval, 64))
 //@   ensures[C15:a-boolean-that-does-not-parse-is-an-error] cfgd && reflect.Value.Kind(fv) == 1 ==> (result == nil) == parse_bool_ok(cval) && (result == nil ==> rvBool[fv] == parse_bool_val(cval))
 //@   ensures[C15:other-kinds-are-an-error] cfgd && !(1 <= reflect.Value.Kind(fv) && reflect.Value.Kind(fv) <= 11) && reflect.Value.Kind(fv) != 13 && reflect.Value.Kind(fv) != 14 && reflect.Value.Kind(fv) != 24 ==> result != nil
+
+// ---- C15: the plugin factory: a new object of the class, every declared attribute and element resolved -------------
+// Reflection enters through the assumed contracts of package reflect; a plugin class is taken to be
+// well-formed (classWF: its "name" attributes are strings, embedded structs are well-formed classes, and
+// the fields of a struct value have the types its type describes) -- true of every class in this package by
+// inspection, and a duty of whoever registers further classes.
+//@ spec fun classWF(t reflect.Type) bool
+//@ spec fun isAttr(t reflect.Type, i int) bool = tagHas(reflect.Type.Field(t, i).Tag, "PluginAttribute")
+//@ spec fun isElem(t reflect.Type, i int) bool = !isAttr(t, i) && tagHas(reflect.Type.Field(t, i).Tag, "PluginElement")
+//@ spec fun structOf(v reflect.Value, t reflect.Type) bool = t != nil && reflect.Value.Kind(v) == 25 && reflect.Value.Type(v) == t && classWF(t)
+//@ axiom[when classWF] forall v reflect.Value, i int :: { reflect.Value.Field(v, i) } classWF(reflect.Value.Type(v)) && reflect.Value.Kind(v) == 25 && 0 <= i && i < reflect.Value.NumField(v) ==> reflect.Type.Field(reflect.Value.Type(v), i).Type != nil && reflect.Value.Type(reflect.Value.Field(v, i)) == reflect.Type.Field(reflect.Value.Type(v), i).Type && reflect.Value.Kind(reflect.Value.Field(v, i)) == reflect.Type.Kind(reflect.Type.Field(reflect.Value.Type(v), i).Type)
+//@ axiom[when classWF] forall v reflect.Value, i int :: { reflect.Value.Field(v, i) } classWF(reflect.Value.Type(v)) && reflect.Value.Kind(v) == 25 && 0 <= i && i < reflect.Value.NumField(v) && isAttr(reflect.Value.Type(v), i) && attrName(tagVal(reflect.Type.Field(reflect.Value.Type(v), i).Tag, "PluginAttribute")) == "name" ==> reflect.Value.Kind(reflect.Value.Field(v, i)) == 24
+//@ axiom[when classWF] forall v reflect.Value, i int :: { reflect.Value.Field(v, i) } classWF(reflect.Value.Type(v)) && reflect.Value.Kind(v) == 25 && 0 <= i && i < reflect.Value.NumField(v) && reflect.Type.Field(reflect.Value.Type(v), i).Anonymous && reflect.Value.Kind(reflect.Value.Field(v, i)) == 25 ==> classWF(reflect.Value.Type(reflect.Value.Field(v, i)))
+
+//@ func inject
+//@   requires s != nil && typeConverters != nil && structOf(v, t) && pluginsWF()
+//@   modifies rvSets, rvStr, rvInt, rvBool, rvVal, stHas[s], stVal[s], stNode[s]
+//@   nopanic[C15]
+//@   ensures[C15:every-declared-attribute-is-resolved-or-the-plugin-fails] result == nil ==> (forall i int :: 0 <= i && i < reflect.Value.NumField(v) && isAttr(t, i) ==> rvSets[reflect.Value.Field(v, i)] > old(rvSets)[reflect.Value.Field(v, i)])
+//@   ensures[C15:set-counts-only-grow] forall x reflect.Value :: rvSets[x] >= old(rvSets)[x]
+//@   loop 1 invariant[C15:done-so-far] 0 <= $k && $k < reflect.Value.NumField(v) && (forall j int :: 0 <= j && j < $k && isAttr(t, j) ==> rvSets[reflect.Value.Field(v, j)] > old(rvSets)[reflect.Value.Field(v, j)])
+//@   loop 1 invariant[C15:set-counts-only-grow] forall x reflect.Value :: rvSets[x] >= old(rvSets)[x]
+
+// One element (child plugin) of a plugin: the configured class, else the declared default, else -- unless the
+// element is optional ("Type?") -- an error.  elemKey is the element's sub-tree; classes are looked up in the
+// registry of the element's kind.
+//@ spec fun elemDecl(tag string) string = attrName(tag)
+//@ spec fun elemOptional(tag string) bool = has_suffix(elemDecl(tag), "?")
+//@ spec fun elemKind(tag string) string = elemOptional(tag) ? elemDecl(tag)[:len(elemDecl(tag))-1] : elemDecl(tag)
+//@ spec fun elemKey(prefix string, tag string) string = prefix + "." + toCamelKey(elemKind(tag))
+//@ spec fun pluginsWF() bool = pluginRegistry != nil && (forall T PluginType, n string :: has(pluginRegistry, T) && has(pluginRegistry[T], n) ==> pluginRegistry[T][n] != nil && pluginRegistry[T][n].Class != nil && classWF(pluginRegistry[T][n].Class))
+//@ spec fun knownClass(tag string, c string) bool = has(pluginRegistry, toCamelKey(elemKind(tag))) && has(pluginRegistry[toCamelKey(elemKind(tag))], c)
+//@ spec fun listKey(p string, i int) string = p + "[" + itoa(i) + "]"
+//@ lemma[C15:the-first-list-key when itoa] forall p string :: { p + "[0]" } str_wf(p) ==> p + "[" + itoa(0) + "]" == p + "[0]"
+//@ axiom[when pathPrefix] forall p string, i int :: { p + "[" + itoa(i) + "].type" } pathPrefix(p + "[" + itoa(i) + "]", p + "[" + itoa(i) + "].type")
+//@ func injectElement
+//@   requires s != nil && typeConverters != nil && ft.Type != nil && pluginsWF() && reflect.Value.Kind(fv) == reflect.Type.Kind(ft.Type)
+//@   let ek = elemKey(prefix, tag)
+//@   let kind = reflect.Value.Kind(fv)
+//@   modifies rvSets, rvStr, rvInt, rvBool, rvVal, stHas[s], stVal[s], stNode[s]
+//@   nopanic[C15]
+//@   ensures[C15:set-counts-only-grow] forall x reflect.Value :: rvSets[x] >= old(rvSets)[x]
+//@   ensures[C15:an-element-needs-a-kind] elemDecl(tag) == "" ==> result != nil
+//@   ensures[C15:only-single-and-list-elements] elemDecl(tag) != "" && kind != 23 && kind != 20 ==> result != nil
+//@   ensures[C15:a-missing-required-element-is-an-error] elemDecl(tag) != "" && (kind == 20 || kind == 23) && !old(stNode[s][ek]) && (kind == 23 ==> !old(stNode[s][ek + "[0]"])) && noDefault(tag) && !elemOptional(tag) ==> result != nil
+//@   ensures[C15:an-absent-optional-element-is-left-unset] elemDecl(tag) != "" && (kind == 20 || kind == 23) && !old(stNode[s][ek]) && (kind == 23 ==> !old(stNode[s][ek + "[0]"])) && noDefault(tag) && elemOptional(tag) ==> result == nil && rvSets[fv] == old(rvSets)[fv]
+//@   ensures[C15:a-single-element-without-a-type-is-an-error] elemDecl(tag) != "" && kind == 20 && old(stNode[s][ek]) && !old(stHas[s][ek + ".type"]) ==> result != nil
+//@   ensures[C15:an-unknown-plugin-type-is-an-error] elemDecl(tag) != "" && kind == 20 && old(stNode[s][ek]) && old(stHas[s][ek + ".type"]) && !knownClass(tag, old(stVal[s][ek + ".type"])) ==> result != nil
+//@   ensures[C15:success-sets-the-field] elemDecl(tag) != "" && result == nil && (old(stNode[s][ek]) || (kind == 23 && old(stNode[s][ek + "[0]"]))) ==> rvSets[fv] > old(rvSets)[fv]
+//@   let regd = pluginRegistry[toCamelKey(elemKind(tag))]
+//@   ensures[C15:the-declared-default-class-is-instantiated] forall i int :: elemDecl(tag) != "" && kind == 20 && !old(stNode[s][ek]) && 1 <= i && i < split_count(tag, ',') && itemOK(tag, i) && itemName(tag, i) == "default" && (forall j int :: 1 <= j && j < i ==> itemOK(tag, j) && itemName(tag, j) != "default") ==> (!knownClass(tag, itemValue(tag, i)) ==> result != nil) && (result == nil ==> rvSets[fv] > old(rvSets)[fv] && iftag(plugOf(rvVal[fv])) == ptrTag(regd[itemValue(tag, i)].Class))
+//@   ensures[C15:a-declared-default-list-is-instantiated] forall i int :: elemDecl(tag) != "" && kind == 23 && !old(stNode[s][ek]) && !old(stNode[s][ek + "[0]"]) && 1 <= i && i < split_count(tag, ',') && itemOK(tag, i) && itemName(tag, i) == "default" && (forall j int :: 1 <= j && j < i ==> itemOK(tag, j) && itemName(tag, j) != "default") && result == nil ==> rvSets[fv] > old(rvSets)[fv] && rvLen(rvVal[fv]) >= 1
+//@   ensures[C15:the-configured-class-is-instantiated] elemDecl(tag) != "" && kind == 20 && old(stNode[s][ek]) && result == nil ==> iftag(plugOf(rvVal[fv])) == ptrTag(pluginRegistry[toCamelKey(elemKind(tag))][old(stVal[s][ek + ".type"])].Class)
+
+//@   rangefunc 1 invariant[C15:defaults-so-far] 0 <= $k && $k <= $n && $jump == 0 && 0 <= index && index <= $k && (index > 0 ==> stNode[s][listKey(ek, 0)]) && elemKey == ek && s == old(s) && rvSets == old(rvSets)
+//@   rangefunc 1 invariant[C15:storage-only-grows] (forall k string :: old(stNode[s][k]) ==> stNode[s][k]) && (forall k string :: old(stHas[s][k]) ==> stHas[s][k])
+//@   loop 1 invariant[C15:set-counts-only-grow] (forall x reflect.Value :: rvSets[x] >= old(rvSets)[x]) && reflect.Value.Kind(slice) == 23 && s == old(s) && s != nil && pluginsWF() && elemKey == ek
+//@   loop 1 invariant[C15:one-item-per-index] 0 <= i && rvLen(slice) == i && (i == 0 ==> stNode[s][ek + "[0]"])
+
+// the body of the loop over a default list ("A;B"): a non-blank entry becomes the type of the next list element
+// Captured variables, in order: the loop's jump state (0 = ready), elemKey, index, s, injectElement's result.
+//@ func injectElement/rangefunc1
+//@   params typeClass
+//@   requires freevar(0) == 0 && s != nil && 0 <= index && index < 4611686018427387904
+//@   let tc = str_trim(typeClass)
+//@   modifies freevar(0), index, freevar(4), stHas[s], stVal[s], stNode[s]
+//@   nopanic[C15]
+//@   ensures[C15:blank-entries-are-skipped] tc == "" ==> result && index == old(index) && freevar(4) == old(freevar(4))
+//@   ensures[C15:entry-becomes-the-next-element] tc != "" && result ==> index == old(index) + 1 && stNode[s][elemKey + "[" + itoa(old(index)) + "]"] && stHas[s][elemKey + "[" + itoa(old(index)) + "].type"] && stVal[s][elemKey + "[" + itoa(old(index)) + "].type"] == tc
+//@   ensures[C15:a-failing-store-ends-the-loop-with-the-error] tc != "" && !result ==> freevar(0) == 1 && freevar(4) != nil && index == old(index)
+//@   ensures[C15:loop-goes-on-iff-no-error] result == (freevar(0) == 0)
+//@   ensures[C15:storage-only-grows] (forall k string :: old(stNode[s][k]) ==> stNode[s][k]) && (forall k string :: old(stHas[s][k]) ==> stHas[s][k])
+
+//@ func NewPlugin
+//@   requires s != nil && typeConverters != nil && t != nil && classWF(t) && pluginsWF()
+//@   modifies rvSets, rvStr, rvInt, rvBool, rvVal, stHas[s], stVal[s], stNode[s]
+//@   nopanic[C15]
+//@   ensures[C15,C16:a-new-object-of-the-class] result1 == nil ==> plugOf(result0) != nil && fresh(ifval(plugOf(result0))) && iftag(plugOf(result0)) == ptrTag(t)
+//@   ensures[C15:set-counts-only-grow] forall x reflect.Value :: rvSets[x] >= old(rvSets)[x]
+
+// ---- the rolling-file logger's Start: the inner logger mirrors the configuration (C01 C05 C06 C16) ----------------
+// The two factories (function literals without captured variables): a fresh logger of the right class that
+// copies the level range and, for the asynchronous one, the buffer size and the overflow policy.
+//@ func (*RollingFileLogger).Start$1
+//@   requires f != nil
+//@   modifies nothing
+//@   nopanic[C06,C16]
+//@   always[C06,C16:an-asynchronous-logger] result != nil && dyn(result, *AsyncLogger)
+//@   ensures[C06:policy-and-size-as-configured] as(result, *AsyncLogger).BufferFullPolicy == f.BufferFullPolicy && as(result, *AsyncLogger).BufferSize == f.BufferSize
+//@   ensures[C01:level-range-as-configured] as(result, *AsyncLogger).LoggerBase.Level == f.Level && as(result, *AsyncLogger).LoggerBase.Layout == f.Layout
+//@   ensures[C16:a-new-object] fresh(ifval(result))
+//@ func (*RollingFileLogger).Start$2
+//@   requires f != nil
+//@   modifies nothing
+//@   nopanic[C16]
+//@   always[C16:a-synchronous-logger] result != nil && dyn(result, *SyncLogger)
+//@   ensures[C01:level-range-as-configured] as(result, *SyncLogger).LoggerBase.Level == f.Level && as(result, *SyncLogger).LoggerBase.Layout == f.Layout
+//@   ensures[C16:a-new-object] fresh(ifval(result))
+
+// Start hands the configuration to initRollingFileLogger unchanged (its frame does not contain any
+// configuration field) with the factory that matches the mode.
+//@ func (*RollingFileLogger).Start
+//@   requires f != nil
+//@   modifies f.logger, f.appenders, all(AppenderRefs), startedA, startedL, calls(fn("(*RollingFileLogger).Start$1")), calls(fn("(*RollingFileLogger).Start$2"))
+//@   nopanic[C16]
+//@   ensures[C05,C16:inner-logger-started] result == nil ==> f.logger != nil && startedL[f.logger] == old(startedL)[f.logger] + 1
+//@   ensures[C06:the-factory-matches-the-mode] f.AsyncWrite ? (f.logger == ret(fn("(*RollingFileLogger).Start$1"), calls(fn("(*RollingFileLogger).Start$1"))) && dyn(f.logger, *AsyncLogger)) : (f.logger == ret(fn("(*RollingFileLogger).Start$2"), calls(fn("(*RollingFileLogger).Start$2"))) && dyn(f.logger, *SyncLogger))
+//@   ensures[C06:asynchronous-when-configured] (f.AsyncWrite ==> calls(fn("(*RollingFileLogger).Start$1")) == old(calls(fn("(*RollingFileLogger).Start$1"))) + 1) && (!f.AsyncWrite ==> calls(fn("(*RollingFileLogger).Start$2")) == old(calls(fn("(*RollingFileLogger).Start$2"))) + 1)
+//@   ensures[C01:split-count] len(f.appenders) == (f.Separate ? 2 : 1)
+
+// ---- the two caller-lookup switches (C11): each key sets its own switch, to the parsed boolean, or fails -------------
+//@ func RegisterProperty(enableCaller)
+//@   modifies enableCaller
+//@   nopanic[C11,C15]
+//@   ensures[C11,C15:sets-its-own-switch] (result == nil) == parse_bool_ok(s) && (result == nil ==> enableCaller == parse_bool_val(s)) && (result != nil ==> enableCaller == old(enableCaller))
+//@ func RegisterProperty(fastCaller)
+//@   modifies fastCaller
+//@   nopanic[C11,C15]
+//@   ensures[C11,C15:sets-its-own-switch] (result == nil) == parse_bool_ok(s) && (result == nil ==> fastCaller == parse_bool_val(s)) && (result != nil ==> fastCaller == old(fastCaller))
